@@ -1334,6 +1334,7 @@ func (s *State) evalArrayInfixExpression(operator token.Type, left, right object
 			leftVal = leftVal[:len(leftVal):len(leftVal)]
 		}
 		if right.Type() != object.ARRAY {
+			object.MustBeOk(len(leftVal) + 1) // the append copies the whole left operand, like array + array.
 			return object.NewArray(append(leftVal, object.Value(right)))
 		}
 		rightArr := object.Elements(right)
